@@ -33,6 +33,13 @@ func NewIOReader(reader io.Reader) ro.Observable[[]byte] {
 
 		for {
 			n, err := reader.Read(buf)
+			// io.Reader: process the n > 0 bytes before considering the error; every chunk gets
+			// its own array, the buffer is reused by the next Read
+			if n > 0 || err == nil {
+				chunk := make([]byte, n)
+				copy(chunk, buf[:n])
+				destination.NextWithContext(ctx, chunk)
+			}
 			if err != nil {
 				if err == io.EOF {
 					destination.CompleteWithContext(ctx)
@@ -41,7 +48,6 @@ func NewIOReader(reader io.Reader) ro.Observable[[]byte] {
 				}
 				break
 			}
-			destination.NextWithContext(ctx, buf[:n])
 		}
 
 		return func() {
